@@ -13,7 +13,6 @@ import (
 	"sync/atomic"
 	"time"
 
-	"github.com/gorilla/mux"
 	"github.com/inbucket/inbucket/v3/pkg/config"
 	"github.com/inbucket/inbucket/v3/pkg/extension"
 	"github.com/inbucket/inbucket/v3/pkg/extension/luahost"
@@ -197,7 +196,7 @@ func NewWorld(c Cfg) (*World, error) {
 	w.hubDone = make(chan struct{})
 	go func() { w.Hub.Start(w.Ctx); close(w.hubDone) }()
 	if !c.NoHTTP {
-		web.Router = mux.NewRouter().UseEncodedPath() // as the package initialises it
+		web.Router = FreshRouter() // the package's own initial router, without routes
 		prefix := stringutil.MakePathPrefixer(conf.Web.BasePath)
 		webui.SetupRoutes(web.Router.PathPrefix(prefix("/serve/")).Subrouter())
 		rest.SetupRoutes(web.Router.PathPrefix(prefix("/api/")).Subrouter())
